@@ -148,6 +148,8 @@ let hout_s = function
   | OBump (b, pushed) ->
       Printf.sprintf "OK fee=%s in=%s out=%s pushed=%s" (str_z b.b_fee) (ids_s b.b_inputs) (outs_s b.b_outputs) (bool_s pushed)
   | ONoLast -> "NOLAST"
+  | ODeleted -> "D"
+  | ONoTx -> "NOTX"
 
 let dispatch = function
   | ["select"; view; amount; variance; minc; dust; maxu] ->
@@ -184,8 +186,22 @@ let dispatch = function
       str_z n.nw_dust_amount ^ " " ^ str_z n.nw_fee_min ^ " " ^ str_z n.nw_fee_max
   | "hist" :: net :: wk :: bcount :: mult :: mult2 :: ops ->
       let env = { he_bcount = z_of bcount; he_mult = q_of mult; he_mult2 = q_of mult2 } in
-      let recs = h_run env (net_by_index (z_of net)) (wkind_of wk) h_empty (List.map hop_of ops) in
-      String.concat " @ " (List.map (fun r -> hout_s r.hr_out ^ " U=" ^ snap_s r.hr_post) recs)
+      let nw = net_by_index (z_of net) and w = wkind_of wk in
+      (* d~pos: delete the transaction that operation number pos broadcast (its serial = hs_next of the state before) *)
+      let serials = Hashtbl.create 8 in
+      let st = ref h_empty in
+      let answers = List.mapi (fun pos tok ->
+          let op = match fsplit tok with
+            | ["d"; p] -> HDelete (Hashtbl.find_opt serials (int_of_string p))
+            | _ -> hop_of tok in
+          let pre = !st in
+          let (st', out) = h_step env nw w pre op in
+          (match out with
+           | OTx (_, true) | OBump (_, true) -> Hashtbl.replace serials pos pre.hs_next
+           | _ -> ());
+          st := st';
+          hout_s out ^ " U=" ^ snap_s st') ops in
+      String.concat " @ " answers
   | _ -> "BADREQ"
 
 let () = main dispatch
